@@ -17,9 +17,9 @@ from ..core import R, dec_arr, dec_scalar, drive_enum, drive_hypothesis
 from ..oracles import terrain3x3 as T
 
 PROP = "C08"
-RULE = ("Generator: elevation rasters 2..12 a side (thorough ..20; side 2 = border-only), dtypes float64/float32 + all 8 int dtypes, values from palettes "
+RULE = ("Generator: elevation rasters 2..12 a side (thorough 14, 16, 20 too; side 2 = border-only, kept rare), dtypes float64/float32 + all 8 int dtypes, values from palettes "
         "(small ints, signed, halves/quarters, large ints, non-float32-representable, free floats 2^-10<=|v|<=1e4) arranged iid / 3x3-block plateaus / "
-        "constant / planar ramp / one spike, NaN cells (one, ~15%, ~50%) in float rasters; cell size delivered as res attr (scalar, tuple, list; ints and "
+        "constant / planar ramp / one spike, NaN cells (1-2, ~10%, ~40% at drawn positions) in 3/8 of float rasters; cell size delivered as res attr (scalar, tuple, list; ints and "
         "floats; without coordinates, with agreeing coordinates, with disagreeing coordinates = res wins) or by coordinates only (asc/desc, offsets, "
         "steps 0.001..1000) or not at all (=1), x != y in about half; dim names (y,x),(lat,lon),(x,y),default; azimuth in [0,360], altitude in [0,90] "
         "(ints and floats). Sub-properties: formula (+border, range, flat, summarize_terrain) / locality (every cell position x {NaN, value}) / offset / "
@@ -37,7 +37,7 @@ ASSUMPTIONS = [
     "NaN in a window cell that the formula reads gives NaN (IEEE propagation); a cell the formula does not read (centre for slope/aspect, "
     "corners for curvature, centre+corners for hillshade) does not matter",
 ]
-BUDGET_S = {"quick": 150, "thorough": 1100}
+BUDGET_S = {"quick": 200, "thorough": 1100}
 
 FNS = ("slope", "aspect", "curvature", "hillshade")
 INT_DTYPES = S.INT_DTYPES
@@ -152,7 +152,7 @@ def _hint(fn, out, z, cx, cy, az, alt, m):
         ref, tol = f()
         if np.array_equal(np.isnan(ref[m]), np.isnan(out[m])) and close(ref, tol):
             return name
-    return "other"
+    return "none of the listed alternatives"
 
 
 def check_outputs(r, outs, z, cx, cy, az, alt, pre=""):
@@ -216,13 +216,15 @@ def check_outputs(r, outs, z, cx, cy, az, alt, pre=""):
             bad = m & ~(d <= tol)
         if bad.any():
             y, x = np.argwhere(bad)[0]
+            tag = hyp = ""
             if fn == "aspect" and (out[y, x] == -1) != (ref[y, x] == -1):
-                tag = "flat_marker_for_sloping_window" if out[y, x] == -1 else "zero_gradient_not_-1"
+                tag = "/flat_marker_for_sloping_window" if out[y, x] == -1 else "/zero_gradient_not_-1"
             else:
-                tag = _hint(fn, out, z, cx, cy, az, alt, m)
-            r.fail(pre + "formula.%s.value/%s" % (fn, tag),
-                   "%s at (%d,%d) = %r, formula %r (|diff| %.3g > tol %.3g); cell_x=%r cell_y=%r az=%r alt=%r; window %s"
-                   % (fn, y, x, out[y, x], ref[y, x], d[y, x], tol[y, x], cx, cy, az, alt, _win(z, y, x)))
+                # which alternative reading reproduces the whole output (diagnostic only; input dependent, so not part of the bucket)
+                hyp = "; whole output is reproduced by hypothesis: " + _hint(fn, out, z, cx, cy, az, alt, m)
+            r.fail(pre + "formula.%s.value%s" % (fn, tag),
+                   "%s at (%d,%d) = %r, formula %r (|diff| %.3g > tol %.3g); cell_x=%r cell_y=%r az=%r alt=%r; window %s%s"
+                   % (fn, y, x, out[y, x], ref[y, x], d[y, x], tol[y, x], cx, cy, az, alt, _win(z, y, x), hyp))
     return aref
 
 
@@ -318,6 +320,35 @@ def body_local(case, ctx):
     return r
 
 
+def _offset_within_bound(r, a, b, z, z2, cx, cy, az, alt, k):
+    """a = outputs for z, b = outputs for z2 = float32(z + k).  float32 rounds z+k, so the two outputs may differ by what the
+    formula itself yields for the two rounded rasters plus the single-precision bound of each side; nothing else."""
+    ra = {"slope": T.slope(z, cx, cy), "curvature": T.curvature(z, cx, cy), "hillshade": T.hillshade(z, az, alt)}
+    rb = {"slope": T.slope(z2, cx, cy), "curvature": T.curvature(z2, cx, cy), "hillshade": T.hillshade(z2, az, alt)}
+    refa, tola, amba = T.aspect(z)
+    refb, tolb, ambb = T.aspect(z2)
+    with np.errstate(all="ignore"):
+        for fn in FNS:
+            oa, ob = a[fn].astype(np.float64), b[fn].astype(np.float64)
+            if fn == "aspect":
+                skip = amba | ambb | ((refa == -1) != (refb == -1))     # rounding of z+k made / unmade a zero gradient
+                r.amb += int(skip.sum())
+                d = np.abs(oa - ob)
+                d = np.where((oa == -1) | (ob == -1), np.where(oa == ob, 0.0, np.inf), np.minimum(d, 360 - d))
+                dr = np.abs(refa - refb)
+                allowed = tola + tolb + np.minimum(dr, 360 - dr)
+                m = ~skip & ~np.isnan(refa) & ~np.isnan(refb)
+            else:
+                d = np.abs(oa - ob)
+                allowed = ra[fn][1] + rb[fn][1] + np.abs(ra[fn][0] - rb[fn][0])
+                m = ~np.isnan(ra[fn][0]) & ~np.isnan(rb[fn][0])
+            bad = (np.isnan(oa) != np.isnan(ob)) | (m & ~np.isnan(oa) & ~(d <= allowed))
+            if bad.any():
+                y, x = np.argwhere(bad)[0]
+                r.fail("offset." + fn, "adding %r changed %s at (%d,%d): %r -> %r, more than float32 rounding of the shifted elevations explains (%.3g); window %s"
+                       % (k, fn, y, x, oa[y, x], ob[y, x], allowed[y, x], _win(z, y, x)))
+
+
 def body_offset(case, ctx):
     """Part 4: adding an integer constant."""
     data = dec_arr(case["raster"])
@@ -348,8 +379,8 @@ def body_offset(case, ctx):
                 r.fail("offset." + fn, "adding %r changed %s at (%d,%d): %r -> %r; window %s" % (k, fn, y, x, a[fn][y, x], b[fn][y, x], _win(z, y, x)))
     else:
         # float32 rounds a+k: "changes nothing" holds up to the single-precision bound => each side against the formula
-        r.label("offset=within_formula_bound")
-        check_outputs(r, b, z2, cx, cy, az, alt, pre="offset.")
+        r.label("offset=within_rounding_bound")
+        _offset_within_bound(r, a, b, z, z2, cx, cy, az, alt, k)
     return r
 
 
@@ -414,7 +445,61 @@ def body_rot(case, ctx):
     return r
 
 
-BODIES = {"formula": body_formula, "local": body_local, "offset": body_offset, "rot": body_rot}
+# ---------------------------------------------------------------- docstring examples (anchor the reference model to the documentation)
+
+_N = float("nan")
+DOC_EXAMPLES = {
+    "slope": {"data": [[0, 0, 0, 0, 0], [0, 0, 0, -1, 2], [0, 0, 0, 0, 1], [0, 0, 0, 5, 0]], "dtype": "int64", "cell": {"kind": "none", "dims": "default"},
+              "slope": [[_N] * 5, [_N, 0., 14.036243, 32.512516, _N], [_N, 0., 42.031113, 53.395725, _N], [_N] * 5]},
+    "aspect": {"data": [[1, 1, 1, 1, 1], [1, 1, 1, 2, 0], [1, 1, 1, 0, 0], [4, 4, 9, 2, 4], [1, 5, 0, 1, 4], [1, 5, 0, 5, 5]], "dtype": "float32",
+               "cell": {"kind": "none", "dims": "yx"},
+               "aspect": [[_N] * 5, [_N, -1., 225., 135., _N], [_N, 343.61045967, 8.97262661, 33.69006753, _N], [_N, 307.87498365, 71.56505118, 54.46232221, _N],
+                          [_N, 191.30993247, 144.46232221, 255.96375653, _N], [_N] * 5]},
+    "curvature": {"data": [[0, 0, 0, 0, 0], [0, 0, 0, 0, 0], [0, 0, -1, 0, 0], [0, 0, 0, 0, 0], [0, 0, 0, 0, 0]], "dtype": "float32",
+                  "cell": {"kind": "res", "form": "tuple", "cx": 10, "cy": 10, "dims": "default"},
+                  "curvature": [[_N] * 5, [_N, -0., 1., -0., _N], [_N, 1., -4., 1., _N], [_N, -0., 1., -0., _N], [_N] * 5]},
+    "hillshade": {"data": [[0., 0., 0., 0., 0.], [0., 1., 0., 2., 0.], [0., 0., 3., 0., 0.], [0., 0., 0., 0., 0.], [0., 0., 0., 0., 0.]], "dtype": "float64",
+                  "cell": {"kind": "coords", "dims": "yx", "cx": 1, "cy": 1, "ydesc": True, "xdesc": False, "yoff": 0, "xoff": 0},
+                  "hillshade": [[_N] * 5, [_N, 0.71130913, 0.44167341, 0.71130913, _N], [_N, 0.95550163, 0.71130913, 0.52478473, _N],
+                                [_N, 0.71130913, 0.88382559, 0.71130913, _N], [_N] * 5]},
+    "summarize_terrain": {"data": [[0] * 8, [0] * 8, [0, 0, 1, 0, 0, -1, 0, 0], [0] * 8, [0] * 8], "dtype": "float64",
+                          "cell": {"kind": "res", "form": "tuple", "cx": 1, "cy": 1, "dims": "default"},
+                          "slope": [[_N] * 8, [_N, 10.024988, 14.036243, 10.024988, 10.024988, 14.036243, 10.024988, _N],
+                                    [_N, 14.036243, 0., 14.036243, 14.036243, 0., 14.036243, _N],
+                                    [_N, 10.024988, 14.036243, 10.024988, 10.024988, 14.036243, 10.024988, _N], [_N] * 8],
+                          "curvature": [[_N] * 8, [_N, -0., -100., -0., -0., 100., -0., _N], [_N, -100., 400., -100., 100., -400., 100., _N],
+                                        [_N, -0., -100., -0., -0., 100., -0., _N], [_N] * 8],
+                          "aspect": [[_N] * 8, [_N, 315., 0., 45., 135., 180., 225., _N], [_N, 270., -1., 90., 90., -1., 270., _N],
+                                     [_N, 225., 180., 135., 45., 0., 315., _N], [_N] * 8]},
+}
+
+
+def body_docex(case, ctx):
+    """The arrays printed in the docstrings: the library must reproduce them, and so must the reference model
+    (an 'oracle_selftest' failure means the model, not the library, departs from the documentation)."""
+    ex = DOC_EXAMPLES[case["which"]]
+    data = np.array(ex["data"], dtype=ex["dtype"])
+    da, cx, cy = build(ex["cell"], data, name="myraster")
+    z = T.cast32(data)
+    r = R(nt=True)
+    r.label("docstring_example")
+    outs = call4(da, 225, 25)
+    model = {"slope": T.slope(z, cx, cy)[0], "aspect": T.aspect(z)[0], "curvature": T.curvature(z, cx, cy)[0], "hillshade": T.hillshade(z, 225, 25)[0]}
+    for fn in FNS:
+        if fn not in ex:
+            continue
+        doc = np.array(ex[fn], dtype=np.float64)
+        for who, got in (("library", outs[fn].astype(np.float64)), ("oracle_selftest", model[fn])):
+            g = got % 360.0 if fn == "aspect" else got
+            d = np.where(doc == -1, doc, doc % 360.0) if fn == "aspect" else doc
+            g = np.where(got == -1, got, g) if fn == "aspect" else g
+            if not np.allclose(g, d, rtol=2e-6, atol=2e-6, equal_nan=True):
+                r.fail("docex.%s.%s" % (fn, who), "%s differs from the array printed in the %s docstring:\n%s\nvs\n%s" % (who, case["which"], got, doc))
+    check_outputs(r, outs, z, cx, cy, 225, 25)
+    return r
+
+
+BODIES = {"formula": body_formula, "local": body_local, "offset": body_offset, "rot": body_rot, "docex": body_docex}
 
 
 # ---------------------------------------------------------------- strategies
@@ -450,28 +535,25 @@ def _palette(draw, dtype):
     return name, vals
 
 
-SIDES = [4, 3, 5, 6, 3, 4, 5, 7, 8, 6, 9, 10, 12, 2, 4, 5, 6, 7, 8, 3, 9, 10, 11, 4]   # not sorted: Hypothesis favours early entries
+SIDES = [3, 4, 5, 6, 3, 4, 5, 7, 8, 6, 9, 10, 12, 2, 4, 5, 6, 7, 8, 3, 9, 10, 11, 4]   # small first (shrink target), 2 = border-only raster kept rare
 
 
 @st.composite
 def _grid(draw, h, w, values, specials=()):
-    """h x w nested list from `values`; float rasters get NaN cells in half of the draws: one cell / ~12% / ~45%."""
+    """h x w nested list from `values`; float rasters get NaN cells in 3 of 8 draws: one or two cells / ~10% / ~40%, at drawn positions."""
     n = h * w
-    base = st.sampled_from(list(values))
-    mode = draw(st.sampled_from(["none", "none", "none", "one", "one", "some", "some", "half"])) if specials else "none"
-    if mode in ("none", "one"):
-        flat = draw(st.lists(base, min_size=n, max_size=n))
-        if mode == "one":
-            flat[draw(st.integers(0, n - 1))] = specials[0]
-    else:
-        elem = st.one_of(*([base] * (7 if mode == "some" else 5) + [st.just(specials[0])] * (1 if mode == "some" else 4)))
-        flat = draw(st.lists(elem, min_size=n, max_size=n))
+    flat = draw(st.lists(st.sampled_from(list(values)), min_size=n, max_size=n))
+    mode = draw(st.sampled_from(["none", "none", "none", "none", "none", "few", "some", "many"])) if specials else "none"
+    if mode != "none":
+        k = {"few": draw(st.integers(1, 2)), "some": max(1, n // 10), "many": max(1, (2 * n) // 5)}[mode]
+        for pos in draw(st.lists(st.integers(0, n - 1), min_size=k, max_size=k)):
+            flat[pos] = specials[0]
     return [flat[i * w:(i + 1) * w] for i in range(h)]
 
 
 @st.composite
 def elevations(draw, dtypes, min_side=2, max_side=12, structs=("iid", "iid", "iid", "iid", "plateau", "plateau", "plateau", "const", "ramp", "ramp", "spike", "spike")):
-    sides = [s for s in SIDES if min_side <= s <= max_side] + ([max_side] if max_side > 12 else [])
+    sides = [s for s in SIDES + [14, 16, 20] if min_side <= s <= max_side]
     h = draw(st.sampled_from(sides))
     w = draw(st.sampled_from(sides))
     dtype = draw(st.sampled_from(list(dtypes)))
@@ -698,10 +780,10 @@ def shards(tier):
     th = tier == "thorough"
     out = []
     side = 20 if th else 12
-    n_formula, per_formula = (12, 2600) if th else (6, 420)
-    n_local, per_local = (8, 500) if th else (4, 110)
-    n_offset, per_offset = (4, 1800) if th else (2, 330)
-    n_rot, per_rot = (4, 1800) if th else (2, 330)
+    n_formula, per_formula = (16, 6500) if th else (6, 420)
+    n_local, per_local = (12, 1300) if th else (4, 110)
+    n_offset, per_offset = (8, 3600) if th else (2, 330)
+    n_rot, per_rot = (8, 3600) if th else (2, 330)
     lside = 14 if th else 10
     for i in range(n_formula):
         out.append(("formula_rand#%d" % i, lambda ctx, i=i: drive_hypothesis(ctx, body_formula, formula_cases(_dtypes_for(i), side), per_formula)))
@@ -720,6 +802,8 @@ def shards(tier):
             out.append(("win3_%s#%d" % (al, bi), lambda ctx, al=al, lo=lo, hi=hi: drive_enum(
                 ctx, body_formula, window_cases(al, lo, hi),
                 space="all 3x3 windows over %s %s, 16 per raster, rasters [%d,%d)" % (ALPHABETS[al][0], ALPHABETS[al][1], lo, hi), size=hi - lo)))
+    out.append(("doc_examples", lambda ctx: drive_enum(ctx, body_docex, [{"sub": "docex", "which": k, "enum": ["docex", k]} for k in DOC_EXAMPLES],
+                                                       space="docstring examples of slope/aspect/curvature/hillshade/summarize_terrain", size=len(DOC_EXAMPLES))))
     out.append(("delivery_enum", lambda ctx: drive_enum(ctx, body_formula, delivery_cases(),
                                                         space="cell-size delivery forms x 64 (cx,cy) pairs x 2 rasters", size=N_DELIVERY)))
     return out
